@@ -9,7 +9,7 @@ the schedule.  Per-engine observation sequences of (a), (a'), (b), every run of 
 equal; the slot observations of (d) must equal those of (b).  (c) is a test: the model and the theorems are at
 generator-step granularity.
 """
-import sys, os, json, threading, subprocess
+import sys, os, json, threading, subprocess, random
 from lib import terms
 from lib.terms import g_term, g_str, g_list, g_nat, g_bool, g_option
 
@@ -27,9 +27,16 @@ RULE = ('2-3 engines, histories of 6-24 operations each over {atom, assert_fact/
         'cases rule bodies call asserta/assertz/retract/retractall and queries are started on these builtins themselves), clear, '
         'start/next/close/drop/drain of query generators in 3 slots, peek at variables between steps}, merged by a random '
         'schedule with bursts; every '
-        'history ends with read-back queries of all predicates. Non-trivial: two engines hold different contents under '
-        'one predicate name and at some point of the schedule at least two query generators are suspended on an answer '
-        'simultaneously. Distinct by hash of the case.')
+        'history ends with read-back queries of all predicates. Family NL (45 quick / 400 thorough): dynamic facts WITH variables '
+        '(shared inside one fact, partially bound) under one key, optionally reached through a rule; 3-6 generator slots on that '
+        'predicate opened / advanced / finished in non-nested order (mostly oldest first: closed, dropped, replaced, exhausted '
+        'while a younger one stays suspended, then a new one), query patterns from a small pool of constants (clash / compatible). '
+        'Family SC: K generators (3-8 with depths 2-14, compared with the Coq model; K in {5,20,40} with depths 100-200, metamorphic '
+        'oracle only) suspended inside recursive predicates at the same time, advanced in chunks in random order, then probe '
+        'queries (shallow and deep), closes oldest-first / random, more probes. Non-trivial: (mixed) two engines hold different '
+        'contents under one predicate name and at least two generators are suspended on an answer simultaneously; (NL) >= 3 '
+        'generators on one predicate and a non-LIFO finish followed by a new start while the younger one is live; (SC) >= 3 '
+        'suspended at once. Distinct by hash of the case.')
 TRUSTED_BASE = [
     'Coq 8.16.1 kernel (coqc); vm_compute for the in-Coq evaluation of the model on every case',
     'no axioms: all C04 theorems are closed under the global context',
@@ -103,8 +110,26 @@ def schedule_ops(case):
     return out
 
 def model_expr(case):
-    items = ['(%s, %s)' % (g_nat(e), g_op(case, op)) for e, op in schedule_ops(case)]
+    if case.get('nomodel'):
+        return None            # scale family: the in-Coq evaluation is too slow / runs out of unification fuel at these depths
+    items = []
+    for e, op in schedule_ops(case):
+        if op[0] == 'adv':     # n times next(); the n observations are folded into one by canon_model_trace
+            items.extend(['(%s, (ONext %s))' % (g_nat(e), g_nat(op[1]))] * op[2])
+        else:
+            items.append('(%s, %s)' % (g_nat(e), g_op(case, op)))
     return '(run_world %d %s %s)' % (FUEL, g_nat(case['neng']), g_list(items))
+
+def digest_answers(answers):
+    """what an 'adv' operation (n times next on one generator) observes: the number of answers, a digest of all of them
+    (canonical form) and the last one (if it is small)"""
+    import hashlib
+    canon = [canon_answer(a) for a in answers]
+    h = hashlib.sha1(json.dumps(canon).encode()).hexdigest()[:16]
+    last = canon[-1] if canon else []
+    if len(json.dumps(last)) > 240:
+        last = ['big']
+    return ['adv', len(canon), h, last]
 
 # ------------------------------------------------------------------ Prolog text of a script
 
@@ -300,6 +325,17 @@ class EngineDriver:
                 if op[1] not in self.gens:
                     return ['noslot']
                 return self._next(op[1])
+            if k == 'adv':
+                q = op[1]
+                if q not in self.gens:
+                    return ['noslot']
+                out = []
+                for _ in range(op[2]):
+                    r = self._next(q)
+                    if r == ['done']:
+                        break
+                    out.append(r[1:])
+                return digest_answers(out)
             if k == 'close':
                 q = op[1]
                 if q not in self.gens:
@@ -378,7 +414,7 @@ def run_alone_fresh(case):
         out.append(json.loads(r.stdout)['obs'])
     return out
 
-SLOT_OPS = ('start', 'next', 'close', 'drain')
+SLOT_OPS = ('start', 'next', 'close', 'drain', 'adv')
 
 def _vars_of(t, acc):
     if t[0] == 'v':
@@ -543,8 +579,14 @@ def impl(case):
     _prepare(case)
     alone = run_alone_fresh(case)
     inter, shared, unbound = run_interleaved(case)
-    thr, errs, nthr = run_threads(case)
-    b2b = run_back_to_back(case)
+    if case.get('light'):
+        # scale family: the runs on threads and back to back (tests of the isolation BETWEEN engines) are left out, they
+        # would multiply the cost of these long histories; what the family is about is run (d)
+        thr, errs, nthr = [[canon_impl([o])[0]] for o in alone], [], 0
+        b2b = alone
+    else:
+        thr, errs, nthr = run_threads(case)
+        b2b = run_back_to_back(case)
     solo = run_slots_alone(case)
     return {'slots_alone': solo, 'alone': alone, 'back_to_back': b2b, 'interleaved': inter, 'threads': thr, 'thread_errors': errs, 'thread_runs': nthr,
             'shared_atom_objects': shared, 'all_unbound_at_end': unbound}
@@ -567,6 +609,24 @@ def canon_model_trace(case, mo):
     """per-engine observation sequences of the model in the implementation's format"""
     per = [[] for _ in range(case['neng'])]
     atom_ids = [dict() for _ in range(case['neng'])]
+    if any(op[0] == 'adv' for h in case['hist'] for op in h):
+        folded = []
+        it = iter(mo)
+        for e, op in schedule_ops(case):
+            if op[0] != 'adv':
+                folded.append(next(it))
+                continue
+            group = [next(it)[1] for _ in range(op[2])]
+            if group and group[0][0] == 'noslot':
+                folded.append((e, ['noslot']))
+                continue
+            answers = []
+            for o in group:
+                if o[0] != 'ans':
+                    break
+                answers.append(o[1:])
+            folded.append((e, digest_answers(answers)))
+        mo = folded
     for e, o in mo:
         tag = o[0]
         if tag == 'atom':
@@ -608,6 +668,7 @@ def _model_errors(mo):
 
 MODEL_SKIPPED = [0]
 MODEL_CYCLIC = [0]
+MODEL_BY_FAMILY = {}     # family -> [compared with the model, cyclic match (skipped), fuel / outside the model (skipped)]
 
 def _first_diff(a, b):
     for e, (x, y) in enumerate(zip(a, b)):
@@ -622,6 +683,8 @@ def compare(case, io, mo):
     if not isinstance(io, dict):
         return None
     codes = _model_errors(mo)
+    fam = MODEL_BY_FAMILY.setdefault(case.get('family', 'mixed'), [0, 0, 0])
+    fam[1 if (2 in codes or 9 in codes) else 2 if codes else 0] += 1
     if 2 in codes or 9 in codes:
         MODEL_CYCLIC[0] += 1
         return None            # cyclic match: unspecified
@@ -886,9 +949,373 @@ def gen_case(rng, big=False):
     case['sched'] = gen_schedule(rng, [len(h) for h in hist])
     return case
 
+
+# ------------------------------------------------------------------ family NL: many queries on ONE predicate, non-LIFO lifetimes
+
+NL_KEYS = [('p', 1), ('p', 2), ('q', 1), ('q', 2), ('q', 2), ('p', 2)]
+NL_CONSTS = [['a', 'a'], ['a', 'b'], ['a', 'c'], ['i', 1], ['i', 2]]
+
+def _has_var(t):
+    return bool(_vars_of(t, set()))
+
+def nl_fact_args(rng, ar, vs):
+    """arguments of a dynamic fact over few variables: shared variables inside one fact (p(X,X), p(X,f(X,a))), partially bound
+    patterns (p(X,a)), nested ones; mostly NOT ground"""
+    args = []
+    for _ in range(ar):
+        r = rng.random()
+        if r < 0.5:
+            args.append(['v', rng.choice(vs)])
+        elif r < 0.75:
+            args.append(list(rng.choice(NL_CONSTS)))
+        else:
+            f, n = rng.choice([('f', 1), ('g', 2), ('f', 2)])
+            args.append(['f', f, [['v', rng.choice(vs)] if rng.random() < 0.6 else list(rng.choice(NL_CONSTS)) for _ in range(n)]])
+    if not any(_has_var(a) for a in args) and rng.random() < 0.8:
+        args[rng.randrange(ar)] = ['v', vs[0]]
+    return args
+
+def nl_query_args(rng, ar, fresh):
+    """arguments of a query: own variables, constants of a small pool (so that the patterns of different queries on the same
+    fact clash or are compatible), partially bound structures; returns (args, variables)"""
+    vs = fresh(ar)
+    args = []
+    for i in range(ar):
+        r = rng.random()
+        if r < 0.45:
+            args.append(['v', vs[i]])
+        elif r < 0.8:
+            args.append(list(rng.choice(NL_CONSTS)))
+        else:
+            f, n = rng.choice([('f', 1), ('g', 2), ('f', 2)])
+            args.append(['f', f, [['v', vs[i]] if rng.random() < 0.5 else list(rng.choice(NL_CONSTS)) for _ in range(n)]])
+    return args, vs
+
+def gen_nl_history(rng, case, eid, nsteps):
+    """One engine: a few dynamic facts with variables under ONE key (name, arity), optionally a rule predicate that calls it,
+    then 3..6 query generators on that predicate that are opened, advanced and finished in NON-nested order: biased towards
+    first-in-first-out (the older generator is closed / dropped / exhausted / moved on while a younger one stays suspended on an
+    answer, then a new one is started)."""
+    ops = []
+    nextvar = [0]
+    def fresh(n):
+        r = list(range(nextvar[0], nextvar[0] + n))
+        nextvar[0] += n
+        return r
+    name, ar = case['nlkey'] if rng.random() < 0.85 else rng.choice(NL_KEYS)
+    nfacts = rng.choice([1, 1, 2, 3])
+    for _ in range(nfacts):
+        vs = fresh(rng.choice([1, 1, 2]))
+        ops.append(['assert', rng.random() < 0.8, name, nl_fact_args(rng, ar, vs), rng.randrange(3)])
+    other = rng.choice([k for k in FACT_PREDS if k != (name, ar) and k[1] > 0])
+    for _ in range(rng.choice([0, 1, 2])):
+        ops.append(['assert', True, other[0], nl_fact_args(rng, other[1], fresh(1)), rng.randrange(3)])
+    via = None
+    if case['scripts'] and rng.random() < 0.5:
+        ops.append(['load', True, 0])
+        via = case['via']
+    nslots = rng.choice([3, 3, 4, 5, 6])
+    live = []                      # slots of live generators, oldest first
+    free = list(range(nslots))
+    est = {}
+    def start(q):
+        r = rng.random()
+        if via and r < 0.35:
+            args, vs = nl_query_args(rng, via[1], fresh)
+            ops.append(['start', q, via[0], args])
+        elif r < 0.12:
+            args, vs = nl_query_args(rng, other[1], fresh)
+            ops.append(['start', q, other[0], args])
+        else:
+            args, vs = nl_query_args(rng, ar, fresh)
+            ops.append(['start', q, name, args])
+        est[q] = nfacts + 1
+        if q in live:
+            live.remove(q)
+        live.append(q)
+        if rng.random() < 0.85:
+            ops.append(['next', q])
+    def finish(q):
+        how = rng.random()
+        if how < 0.3:
+            ops.append(['close', q, 0])
+        elif how < 0.5:
+            ops.append(['close', q, 1])
+        elif how < 0.7:
+            ops.append(['drain', q])
+        else:
+            for _ in range(nfacts + rng.choice([0, 1, 2])):
+                ops.append(['next', q])
+        live.remove(q)
+        free.append(q)
+    n0 = len(ops)
+    while len(ops) - n0 < nsteps:
+        r = rng.random()
+        if len(live) < 2 and free:
+            start(free.pop(0))
+        elif r < 0.30 and (free or live):
+            if free and rng.random() < 0.85:
+                start(free.pop(0))
+            else:
+                start(live[0] if rng.random() < 0.6 else rng.choice(live))     # the old generator of the slot is dropped
+        elif r < 0.52:
+            ops.append(['next', rng.choice(live)])
+        elif r < 0.86:
+            q = live[0] if rng.random() < 0.65 else rng.choice(live)           # mostly the OLDEST: not LIFO
+            finish(q)
+            if free and rng.random() < 0.75:
+                start(free.pop(0) if rng.random() < 0.5 else free.pop())
+        elif r < 0.93:
+            vs = fresh(1) + [v for v in range(nextvar[0])][-4:]
+            ops.append(['peek', [['v', rng.choice(vs)] for _ in range(rng.choice([1, 2]))]])
+        elif r < 0.97:
+            ops.append(['assert', True, other[0], nl_fact_args(rng, other[1], fresh(1)), rng.randrange(3)])
+        else:
+            ops.append(['atom', rng.choice(ATOMS)])
+    # whatever is still suspended is finished oldest first, then everything is read back
+    for q in list(live):
+        if rng.random() < 0.7:
+            ops.append(['next', q])
+    for q in list(live):
+        finish(q)
+    q = nslots
+    for k in [(name, ar), other] + ([via] if via else []):
+        ops.append(['start', q, k[0], [['v', v] for v in fresh(k[1])]])
+        ops.append(['drain', q])
+    return ops
+
+def gen_nl_case(rng):
+    neng = 2
+    case = {'neng': neng, 'writes': False, 'family': 'nl', 'scripts': [], 'nlkey': rng.choice(NL_KEYS)}
+    if rng.random() < 0.6:
+        # a rule predicate with a local variable that calls the fact predicates (the facts are then matched one call deeper)
+        hv, lv = ['v', 0], ['v', 1]
+        key = case['nlkey']
+        body_args = [hv, lv][:key[1]] if rng.random() < 0.7 else [lv, hv][:key[1]]
+        cl = [[[hv], [[key[0], body_args]]]]
+        if rng.random() < 0.4:
+            cl.append([[['f', 'f', [hv]]], [[key[0], body_args]]])
+        case['scripts'] = [[['t', 1, cl]]]
+        case['via'] = ['t', 1]
+    hist = [gen_nl_history(rng, case, e, rng.choice([10, 14, 18, 24])) for e in range(neng)]
+    if rng.random() < 0.3:
+        hist[1] = gen_history(rng, case, 1, rng.choice([6, 10]), rng.sample(FACT_PREDS, 2))
+    case['hist'] = hist
+    case['sched'] = gen_schedule(rng, [len(h) for h in hist])
+    return case
+
+def nonlifo_profile(hist):
+    """(number of generators started on the most queried key, number of NON-LIFO events): an event = a generator is finished
+    (closed, dropped, replaced, exhausted as far as that is visible statically: drain) while a YOUNGER one of the same
+    predicate is still live, and later another generator is started on that predicate while the younger one is still live"""
+    live = []          # (slot, predicate) in start order
+    pending = set()    # younger generators that have outlived an older one of the same predicate
+    starts = {}
+    events = 0
+    for op in hist:
+        if op[0] == 'start':
+            key = (op[2], len(op[3]))
+            for i, (q, k) in enumerate(live):
+                if q == op[1]:
+                    for (q2, k2) in live[i + 1:]:
+                        if k2 == k:
+                            pending.add(q2)
+                    live.pop(i)
+                    pending.discard(q)
+                    break
+            if any(k == key and q in pending for q, k in live):
+                events += 1
+            live.append((op[1], key))
+            starts[key] = starts.get(key, 0) + 1
+        elif op[0] in ('close', 'drain'):
+            for i, (q, k) in enumerate(live):
+                if q == op[1]:
+                    for (q2, k2) in live[i + 1:]:
+                        if k2 == k:
+                            pending.add(q2)
+                    live.pop(i)
+                    pending.discard(q)
+                    break
+    return (max(starts.values()) if starts else 0), events
+
+
+# ------------------------------------------------------------------ family SC: many generators suspended deep inside recursions
+
+def _peano(n, tail):
+    t = tail
+    for _ in range(n):
+        t = ['f', 's', [t]]
+    return t
+
+def sc_program(rng):
+    """the recursive predicates of one scale case (names of its own, never in FACT_PREDS / RULE_PREDS): the script and a
+    list of query makers  mk(depth, fresh) -> (name, args, steps)  such that after `steps` answers the generator is suspended
+    about `depth` calls deep; fin = the query is finite"""
+    v = lambda i: ['v', i]
+    z = ['a', 'z']
+    s1 = lambda t: ['f', 's', [t]]
+    script = [
+        # n(z). n(s(X)) :- n(X).
+        ['n', 1, [[[z], []], [[s1(v(0))], [['n', [v(0)]]]]]],
+        # l([], z). l([E|T], s(N)) :- c(E), l(T, N).        (c/1: dynamic facts of the engine)
+        ['l', 2, [[[['a', '[]'], z], []], [[terms.mklist([v(0)], v(1)), s1(v(2))], [['c', [v(0)]], ['l', [v(1), v(2)]]]]]],
+        # m(z, Y, Y). m(s(X), Y, s(Z)) :- m(X, Y, Z).
+        ['m', 3, [[[z, v(0), v(0)], []], [[s1(v(0)), v(1), s1(v(2))], [['m', [v(0), v(1), v(2)]]]]]],
+        # w(X, X). w(X, Z) :- k(X, Y), w(Y, Z).                (k/2: a chain of dynamic facts)
+        ['w', 2, [[[v(0), v(0)], []], [[v(0), v(2)], [['k', [v(0), v(1)]], ['w', [v(1), v(2)]]]]]],
+        # h(X) :- c(X).                                          (a shallow rule for the probes)
+        ['h', 1, [[[v(0)], [['c', [v(0)]]]]]],
+    ]
+    def q_enum(d, fresh):          # answer number i is found i calls deep
+        return 'n', [v(fresh(1)[0])], d
+    def q_down(d, fresh):          # n(s^d(X)): already the FIRST answer is found d calls deep
+        return 'n', [_peano(d, v(fresh(1)[0]))], 1 + rng.choice([0, 0, 1, 3])
+    def q_list(d, fresh):          # lists of growing length over the first c/1 fact
+        a, b = fresh(2)
+        return 'l', [v(a), v(b)], d
+    def q_split(d, fresh):         # the d+1 ways to split s^d(z): answer i is i calls deep; finite
+        a, b = fresh(2)
+        return 'm', [v(a), v(b), _peano(d + rng.choice([0, 1, 5]), z)], d
+    def q_chain(d, fresh):         # walks the chain k(0,1), k(1,2), ..: answer i is i calls deep; finite
+        return 'w', [['i', 0], v(fresh(1)[0])], d
+    def pick(dlo, dhi, fresh):
+        # reaching depth d costs one step with q_down and d steps (of growing cost) with the enumerations, which therefore
+        # stay in the lower third of the depth range
+        if rng.random() < 0.45:
+            return q_down(rng.randrange(dlo, dhi + 1), fresh)
+        return rng.choice([q_enum, q_list, q_split, q_chain])(rng.randrange(dlo, dlo + (dhi - dlo) // 3 + 1), fresh)
+    return script, pick
+
+def gen_sc_history(rng, case, K, dlo, dhi):
+    """K generators suspended at the same time, each between dlo and dhi calls deep in a recursion (opened and advanced in
+    chunks in a random, non-nested order), then probe queries (shallow ones and a new deep one) that must give what they
+    give alone; some of the suspended generators are finished oldest-first / at random, the others go on a few answers, more
+    probes; everything is closed at the end."""
+    v = lambda i: ['v', i]
+    ops = []
+    nextvar = [0]
+    def fresh(n):
+        r = list(range(nextvar[0], nextvar[0] + n))
+        nextvar[0] += n
+        return r
+    _, pick = case['_sc']
+    consts = rng.sample(ATOMS, rng.choice([1, 2, 3]))
+    for c in consts:
+        ops.append(['assert', True, 'c', [['a', c]], rng.randrange(3)])
+    chain = dhi + 8
+    for i in range(chain):
+        ops.append(['assert', True, 'k', [['i', i], ['i', i + 1]], 0])
+    ops.append(['load', True, 0])
+    # the K deep generators
+    plan = []
+    for q in range(K):
+        name, args, steps = pick(dlo, dhi, fresh)
+        ops_q = [['start', q, name, args]]
+        left = steps
+        for _ in range(rng.choice([1, 1, 2, 3])):
+            if left > 1:
+                n = rng.randrange(1, left)
+                ops_q.append(['adv', q, n])
+                left -= n
+        ops_q.append(['adv', q, left])
+        plan.append(ops_q)
+    order = rng.random()
+    if order < 0.3:                # one after the other
+        for o in plan:
+            ops.extend(o)
+    else:                          # chunks of different generators interleaved at random (per generator in order)
+        idx = [0] * K
+        pending = [q for q in range(K) for _ in plan[q]]
+        rng.shuffle(pending)
+        for q in pending:
+            ops.append(plan[q][idx[q]])
+            idx[q] += 1
+    live = list(range(K))
+    nslot = [K]
+    def probes():
+        for _ in range(rng.choice([1, 2, 3])):
+            q = nslot[0]
+            nslot[0] += 1
+            r = rng.random()
+            if r < 0.35:
+                ops.append(['start', q, 'c', [v(fresh(1)[0])]])
+                ops.append(['drain', q])
+            elif r < 0.55:
+                ops.append(['start', q, 'h', [v(fresh(1)[0])]])
+                ops.append(['next', q])
+                ops.append(['next', q])
+            elif r < 0.65:
+                ops.append(['start', q, 'k', [['i', rng.randrange(chain)], v(fresh(1)[0])]])
+                ops.append(['drain', q])
+            else:
+                name, args, steps = pick(dlo, dhi, fresh)
+                ops.append(['start', q, name, args])
+                ops.append(['adv', q, steps])
+                if rng.random() < 0.5:
+                    ops.append(['close', q, rng.randrange(2)])
+                else:
+                    live.append(q)
+    probes()
+    for _ in range(rng.choice([1, 2, 3])):
+        r = rng.random()
+        if r < 0.5 and len(live) > 1:
+            for _ in range(rng.randrange(1, max(2, len(live) // 2))):
+                q = live[0] if rng.random() < 0.5 else rng.choice(live)
+                live.remove(q)
+                ops.append(['close', q, rng.randrange(2)])
+        elif live:
+            for q in rng.sample(live, min(len(live), rng.choice([1, 2, 4]))):
+                ops.append(['adv', q, rng.choice([1, 2, 3])])
+        if rng.random() < 0.3:
+            ops.append(['peek', [v(rng.randrange(nextvar[0])) for _ in range(2)]])
+        probes()
+    rng.shuffle(live)
+    for q in live:
+        ops.append(['close', q, rng.randrange(2)])
+    q = nslot[0]
+    ops.append(['start', q, 'h', [v(fresh(1)[0])]])
+    ops.append(['drain', q])
+    return ops
+
+def gen_sc_case(rng, K, dlo, dhi, model):
+    """engine 0: the scale history; engine 1: a smaller one over the same program text with other facts (model: the in-Coq
+    evaluation is the reference - only for small depths; otherwise the reference is the metamorphic oracle: every
+    generator observes what it observes when it is the only one on an engine with the same database history)"""
+    case = {'neng': 2, 'writes': False, 'family': 'sc', 'K': K, 'depth': [dlo, dhi]}
+    case['_sc'] = sc_program(rng)
+    case['scripts'] = [case['_sc'][0]]
+    h0 = gen_sc_history(rng, case, K, dlo, dhi)
+    h1 = gen_sc_history(rng, case, rng.choice([2, 3]), min(dlo, 5), min(dhi, 12))
+    del case['_sc']
+    case['hist'] = [h0, h1]
+    case['sched'] = gen_schedule(rng, [len(h0), len(h1)])
+    if not model:
+        case['nomodel'] = True
+        case['light'] = True
+    return case
+
 def gen(rng, tier):
-    n = 260 if tier == 'quick' else 3000
-    return [gen_case(rng, big=(tier != 'quick' and i % 10 == 0)) for i in range(n)]
+    quick = tier == 'quick'
+    n = 225 if quick else 2600
+    cases = [gen_case(rng, big=(not quick and i % 10 == 0)) for i in range(n)]
+    # the new families get random generators of their own, so that the ordinary cases of a seed stay what they were
+    r2 = random.Random(rng.random())
+    nl = [gen_nl_case(r2) for _ in range(45 if quick else 400)]
+    mini = [gen_sc_case(r2, r2.choice([3, 5, 8]), 2, r2.choice([6, 10, 14]), True) for _ in range(6 if quick else 40)]
+    ks = [5, 20, 20, 40] if quick else [5, 5, 20, 20, 20, 40, 40, 40, 20, 5, 40, 20]
+    full = [gen_sc_case(r2, k, 100, 200, False) for k in ks]
+    if quick:
+        # one case of medium depth, still inside what the Coq model evaluates in seconds
+        mini.append(gen_sc_case(r2, 5, 8, 24, True))
+    # the expensive cases are spread over the list (the implementation runs in chunks of consecutive cases)
+    extra = nl + mini
+    step = max(1, len(cases) // (len(extra) + 1))
+    for i, c in enumerate(extra):
+        cases.insert(min(len(cases), (i + 1) * step + i), c)
+    step = max(1, len(cases) // (len(full) + 1))
+    for i, c in enumerate(full):
+        cases.insert(min(len(cases), i * step + i), c)
+    return cases
 
 def builtin_corpus():
     v = lambda i: ['v', i]
@@ -975,6 +1402,16 @@ def builtin_corpus():
     h1 = [['assert', True, 'p', [f('f', v(0))], 0], ['start', 0, 'asserta', [f('p', f('f', v(1)))]], ['start', 1, 'retractall', [f('p', f('f', a('a')))]],
           ['next', 0], ['start', 2, 'p', [v(2)]], ['next', 2], ['next', 1], ['next', 2], ['next', 2], ['start', 2, 'p', [v(3)]], ['drain', 2]]
     L.append({'neng': 2, 'writes': True, 'scripts': [], 'hist': [h0, h1], 'sched': rr(h0, h1)})
+    # generator lifetimes that do not nest, on a fact with a shared variable (Coq: C04_nonvacuous_nonlifo): p(X,X);
+    # g0 = p(V0,a), g1 = p(V1,b) both suspended on the fact, the OLDER one is closed, g2 = p(V2,c) runs while g1 is still
+    # suspended; engine 1: the same through a rule, the older generator exhausted instead of closed, compatible patterns too
+    h0 = [['assert', True, 'p', [v(9), v(9)], 0], ['start', 0, 'p', [v(0), a('a')]], ['next', 0], ['start', 1, 'p', [v(1), a('b')]],
+          ['next', 1], ['close', 0, 0], ['start', 2, 'p', [v(2), a('c')]], ['next', 2], ['next', 1], ['next', 2], ['next', 1]]
+    h1 = [['assert', True, 'p', [f('f', v(8)), v(8)], 1], ['assert', True, 'p', [v(7), i_(1)], 2], ['load', True, 0],
+          ['start', 0, 't', [v(0)]], ['next', 0], ['start', 1, 'p', [f('f', a('b')), v(1)]], ['next', 1], ['next', 0], ['next', 0],
+          ['start', 2, 'p', [f('f', v(2)), a('c')]], ['next', 2], ['start', 0, 'p', [v(3), v(4)]], ['next', 0], ['peek', [v(1), v(2), v(3)]],
+          ['next', 1], ['next', 2], ['next', 1], ['drain', 0], ['next', 2]]
+    L.append({'neng': 2, 'family': 'nl', 'scripts': [[['t', 1, [[[v(0)], [['p', [v(0), v(1)]]]]]]]], 'hist': [h0, h1], 'sched': rr(h0, h1)})
     return L
 
 # ------------------------------------------------------------------ reporting
@@ -985,7 +1422,7 @@ def _suspended_profile(case):
     active = set()
     best = 0
     for e, op in schedule_ops(case):
-        if op[0] == 'next':
+        if op[0] in ('next', 'adv'):
             active.add((e, op[1]))
         elif op[0] in ('close', 'drain', 'start'):
             active.discard((e, op[1]))
@@ -1012,6 +1449,10 @@ def nontrivial(case, io):
             for k in per[i]:
                 if k in per[j] and per[i][k] != per[j][k]:
                     differ = True
+    if case.get('family') == 'nl':
+        return any(st >= 3 and ev >= 1 for st, ev in map(nonlifo_profile, case['hist']))
+    if case.get('family') == 'sc':
+        return _suspended_profile(case) >= 3
     return differ and _suspended_profile(case) >= 2
 
 def describe(case):
@@ -1049,7 +1490,34 @@ def _without(case, e, drop):
     c['sched'] = sched
     return c
 
+def _shrink_sc(case):
+    """scale family (every candidate costs seconds): whole engines, then all operations of groups of generator slots"""
+    for e in range(case['neng']):
+        if len(case['hist'][e]) > 1:
+            yield _without(case, e, set(range(len(case['hist'][e]))))
+    for e in range(case['neng']):
+        h = case['hist'][e]
+        slots = sorted({op[1] for op in h if op[0] in SLOT_OPS})
+        for parts in (2, 4, 8):
+            if len(slots) >= parts:
+                step = len(slots) // parts
+                for i in reversed(range(parts)):
+                    grp = set(slots[i * step: len(slots) if i == parts - 1 else (i + 1) * step])
+                    yield _without(case, e, {k for k, op in enumerate(h) if op[0] in SLOT_OPS and op[1] in grp})
+
+SHRINK_LEFT = [48]     # candidates this process may still try (a candidate costs an in-Coq evaluation, a scale case seconds)
+
 def shrink(case):
+    """candidates for the runner's greedy shrinking; bounded per check run (the runner shrinks up to five failing cases with
+    up to 60 candidates each; with many failing cases of the new families that took longer than the search itself)"""
+    cost = 4 if case.get('family') == 'sc' else 1
+    for cand in (_shrink_sc(case) if case.get('family') == 'sc' else _shrink_ops(case)):
+        if SHRINK_LEFT[0] < cost:
+            return
+        SHRINK_LEFT[0] -= cost
+        yield cand
+
+def _shrink_ops(case):
     # big pieces first: the whole history of one engine, halves and quarters of a history, then single operations
     # (later operations first)
     for e in range(case['neng']):
@@ -1071,8 +1539,26 @@ def distribution(cases, obs):
     d = {'engines': {}, 'ops': {}, 'history_len': {}, 'max_suspended': {}, 'answers_per_next': {'ans': 0, 'done': 0},
          'raised': 0, 'scripts': {}, 'same_engine_oracle_runs': 0, 'same_engine_oracle_steps': 0,
          'model_not_comparable': MODEL_SKIPPED[0], 'model_cyclic_match_skipped': MODEL_CYCLIC[0],
-         'cases_with_writing_bodies_loaded': 0, 'db_goals_in_loaded_bodies': 0, 'queries_on_db_builtins': 0}
+         'cases_with_writing_bodies_loaded': 0, 'db_goals_in_loaded_bodies': 0, 'queries_on_db_builtins': 0,
+         'families': {}, 'model_by_family[compared,cyclic,fuel]': MODEL_BY_FAMILY,
+         'nl_histories_with_nonlifo_restart_on_one_predicate': 0, 'nl_nonlifo_events': 0, 'nl_facts_with_variables': 0,
+         'sc_cases[K,depth,max_suspended,model]': [], 'sc_cases_with_an_exception': 0, 'sc_note': 'scale cases with depth 100-200 are not evaluated by the Coq model '
+         '(unification fuel 300 / time); their reference is the metamorphic oracle: every generator observes what it observes '
+         'as the only generator on an engine with the same database history (run d), plus fresh-alone = interleaved'}
     for c, o in zip(cases, obs):
+        fam = c.get('family', 'mixed')
+        d['families'][fam] = d['families'].get(fam, 0) + 1
+        if fam == 'nl':
+            for h in c['hist']:
+                st, ev = nonlifo_profile(h)
+                d['nl_histories_with_nonlifo_restart_on_one_predicate'] += 1 if (st >= 3 and ev) else 0
+                d['nl_nonlifo_events'] += ev
+                d['nl_facts_with_variables'] += sum(1 for op in h if op[0] == 'assert' and any(_has_var(a) for a in op[3]))
+        if fam == 'sc':
+            d['sc_cases[K,depth,max_suspended,model]'].append([c['K'], c['depth'], _suspended_profile(c), not c.get('nomodel')])
+            if isinstance(o, dict) and any(x[0] == 'raised' for run in o['interleaved'] for x in run):
+                # an exception in a scale case (e.g. RecursionError of the harness' own stack) would switch the oracle off
+                d['sc_cases_with_an_exception'] = d.get('sc_cases_with_an_exception', 0) + 1
         nw = 0
         for h in c['hist']:
             for op in h:
